@@ -294,8 +294,8 @@ def corr_isolated(ctx, fills):
         for prog in PROGS:
             key = prog.replace("_cached", "").replace("_direct", "")
             for flag in (False, True):
-                if flag and n >= 3 and RANK[key] == 4 and ctx.tier != "thorough":
-                    continue    # sympy.simplify on 81+ tagged rank-4 components: thorough only
+                if flag and RANK[key] == 4 and n >= (4 if ctx.tier == "thorough" else 3):
+                    continue    # sympy.simplify on 81 / 256 tagged rank-4 components is too slow
                 data = {k: v for k, v in tags.items() if k != key}
                 if prog.endswith("_direct") or key == "Riemann_uddd":
                     data.pop("Riemann_uddd", None)
@@ -406,6 +406,7 @@ def corr_histories(ctx, fills, plan):
             if d:
                 bad.append("%s: %s: %s" % (tag, b, d))
                 break
+    ctx.log("histories done")
     ctx.cov["correspondence_histories"] = len(plan)
     ctx.cov["correspondence_history_arrays_checked"] = nfill
     ctx.cov["correspondence_branches_hit"] = branches
@@ -439,14 +440,13 @@ def correspondence(ctx):
     plan = []
     for order in history_orders(ctx, 90, 10 if thorough else 4):
         plan.append((2, False, order, True))
-    for order in history_orders(ctx, 90 if thorough else 3, 1 if thorough else 0, maxtail=8 if thorough else 2):
+    # sympy.simplify on tagged (undefined-function) expressions costs 5-15 s per history
+    for order in history_orders(ctx, 12 if thorough else 3, 1 if thorough else 0, maxtail=8 if thorough else 2):
         plan.append((2, True, order, True))
     for order in history_orders(ctx, 90 if thorough else 8, 2):
         plan.append((3, False, order, True))
     if thorough:
-        for order in history_orders(ctx, 6, 2):
-            plan.append((3, True, order, True))
-        for order in history_orders(ctx, 6, 2):
+        for order in history_orders(ctx, 6, 1):
             plan.append((4, False, order, True))
     for n in (3, 4):        # default metric: gdown / gup / gdet computed by the class itself
         for flag in (False, True):
